@@ -76,10 +76,54 @@ def open_sample(name):
         return zf.read(p.stem, pwd=b"dissect.cobaltstrike")
 
 
+def _big_read(job):
+    """one read() across more than 1 MiB of decoded data (forked child; the loop of read() is slow for reads this long)"""
+    import hashlib
+    import random as _random
+
+    size, start, n, seed = job
+    XF = _BIG["XF"]
+    rng = _random.Random(seed)
+    plain = rng.randbytes(size)
+    nonce = bytes(rng.randrange(1, 255) for _ in range(4))
+    stub = b"\x90" * 13
+    # (dword-wise independent encoder: the byte-wise one of ref/xorenc.py agrees with it on the first 4 KiB, checked below)
+    words = struct.unpack(f"<{size // 4}I", plain[: size // 4 * 4])
+    out, prev = [], struct.unpack("<I", nonce)[0]
+    for w in words:
+        prev ^= w
+        out.append(prev)
+    enc = struct.pack(f"<{len(out)}I", *out) + bytes(b ^ e for b, e in zip(plain[size // 4 * 4 :], struct.pack("<I", prev)))
+    if enc[:4096] != xorenc.encode(plain[:4096], nonce):
+        return {"skipped": True}
+    data = xorenc.stage(stub, nonce, b"")[: len(stub) + 4] + bytes(a ^ b for a, b in zip(struct.pack("<I", size), nonce)) + enc
+    xf = XF(io.BytesIO(data), nonce_offset=len(stub))
+    xf.seek(start)
+    o = core.guarded(lambda: xf.read(n), seconds=900)
+    want = plain[start:] if n < 0 else plain[start : start + n]
+    if o[0] != "ok":
+        return {"skipped": False, "ok": False, "got": str(o)[:100], "size": size, "start": start, "n": n}
+    got = bytes(o[1])
+    first = next((i for i, (a, b) in enumerate(zip(got, want)) if a != b), None)
+    t = core.outcome(xf.tell)
+    return {"skipped": False, "ok": got == want and t == ("ok", start + len(want)), "got_len": len(got), "want_len": len(want), "first_difference": first,
+            "tell": t[1] if t[0] == "ok" else str(t), "size": size, "start": start, "n": n, "sha": hashlib.sha256(got).hexdigest()[:16]}
+
+
+_BIG = {}
+
+
 def run(ctx):
     from dissect.cobaltstrike import xordecode
 
     XF = xordecode.XorEncodedFile
+    # reads that span more than 1 MiB of decoded data: started now in child processes, collected at the end of the run
+    import multiprocessing as mp
+
+    _BIG["XF"] = XF
+    big_jobs = [((1 << 20) + 4099, 3, -1, ctx.seed)] + ([] if ctx.quick else [((1 << 20) + 4099, 1, (1 << 20) + 7, ctx.seed + 1), ((2 << 20) + 5, 0, -1, ctx.seed + 2)])
+    big_pool = mp.get_context("fork").Pool(len(big_jobs))
+    big_async = big_pool.map_async(_big_read, big_jobs, chunksize=1)
     ctx.trusted += ["TLC", "XorFileR operators (Dec/Enc/ReadResult/SeekTarget)", "harness PE builder for detection scenarios"]
     ctx.assumptions += ["seeks to positions before the start of the decoded data are outside the property",
                         "seek()'s return value is not constrained (only read results and tell())"]
@@ -185,6 +229,13 @@ def run(ctx):
             else:
                 stub = filler(rng.choice([2, 30])) + b"\xff\xff\xff" + filler(rng.choice([1, 40])) + b"\xff\xff\xff"
             nn = bytes(rng.randrange(256) for _ in range(4))
+            if rep % 4 >= 2 and row["content"] == "pe0":
+                # nonces that make the encoded image itself look like end-of-stub markers (the complement of the first dword turns it, and the
+                # zero dwords of a DOS header behind it, into FF FF FF FF) or like nothing at all (the first dword itself: zeros).
+                # Only for content that starts with the image, as the property says: with bytes prepended to the image such a nonce
+                # makes from_file accept a spot inside the encoded data (the rolling XOR self-synchronises and the image still lies
+                # ahead) - observed, documented in DESIGN.md, outside C09.
+                nn = bytes(x ^ 0xFF for x in content[:4]) if rep % 2 == 0 else bytes(content[:4])
             trailing = b"" if row["sizeok"] else bytes(rng.randrange(256) for _ in range(rng.choice([1, 4, 100])))
             data = xorenc.stage(stub, nn, content, trailing)
             # maxrange bounds the search for the nonce offset only: any value that covers the stub must give the same answer
@@ -375,6 +426,16 @@ def run(ctx):
         "distinct = (core state, operation) pairs and detection scenarios"
     )
     ctx.exhaustive = True
+    for res in big_async.get(timeout=3000):
+        if res["skipped"]:
+            raise core.MachineryError("the dword-wise encoder of the big-read part disagrees with ref/xorenc.py")
+        ctx.evaluations += 1
+        ctx.count_distinct(("big_read", res["size"], res["start"], res["n"]))
+        if not res["ok"]:
+            ctx.violation("a read spanning more than 1 MiB does not return the corresponding slice of the plaintext", {"op": "XorEncodedFile.read", "failed": "long_read"},
+                          {k: v for k, v in res.items() if k not in ("skipped", "ok")})
+    big_pool.close()
+    ctx.notes["long_reads"] = [list(j[:3]) for j in big_jobs]
 
     # the command line face of the XorEncoded view: beacon-xordecode (CliTools.tla)
     from vt.checks import xcli
